@@ -648,7 +648,7 @@ Definition read_message (magic : N) (stream : bytes) : fres :=
   if MAX_PAYLOAD_LEN <? len then FErr FLength else
   let body := skipn MSG_HDR_LEN stream in
   (* buf := make([]byte, hdr.Length); io.ReadFull(reader, buf) *)
-  if (length body <? N.to_nat len)%nat then FErr FShortPayload else
+  if N.of_nat (length body) <? len then FErr FShortPayload else   (* compared in N: no unary blow-up on evaluation *)
   let payload := firstn (N.to_nat len) body in
   if negb (bytes_eqb (checksum (x_hash X) payload) cks) then FErr FChecksum else
   match decode_payload (trim_right0 cmd) payload with
